@@ -4,6 +4,7 @@ import (
 	"context"
 	"encoding/json"
 	"fmt"
+	"math"
 	"math/rand"
 	"net/url"
 	"os"
@@ -619,5 +620,83 @@ func PreparedStoreCase(seed int64, workDir string) *HistResult {
 		res.Sample = map[string]any{"seed": seed, "jobs": len(data.Jobs)}
 	}
 	_ = definition.QueueStrategyAppend
+	return res
+}
+
+// RunUnencodableSaveThenRestartCase (C10 on the REAL JsonDataStore): the embedding application schedules a job whose
+// variables cannot be encoded as JSON (+Inf / NaN / a channel - legal Go values in ScheduleOpts.Variables); every save fails
+// from then on. A save that fails must leave the last good snapshot in place: a runner restarted on the directory loads,
+// and reports the jobs of that snapshot.
+func RunUnencodableSaveThenRestartCase(seed int64, workDir string) *HistResult {
+	res := &HistResult{Seed: seed, Situations: map[string]map[string]struct{}{}, Evaluations: map[string]int{}}
+	find := func(sig, format string, args ...any) {
+		res.Findings = append(res.Findings, Finding{Props: []string{"C10", "C09"}, Sig: sig, Detail: fmt.Sprintf(format, args...), Step: -1})
+	}
+	dir, err := os.MkdirTemp(workDir, "unenc-")
+	if err != nil {
+		res.Inconclusive = err.Error()
+		return res
+	}
+	defer os.RemoveAll(dir)
+	js, err := store.NewJSONDataStore(dir)
+	if err != nil {
+		res.Inconclusive = err.Error()
+		return res
+	}
+	def := definition.PipelineDef{Concurrency: 2, SourcePath: "gen", Tasks: map[string]definition.TaskDef{"t": {Script: []string{"true"}}}}
+	defs := &definition.PipelinesDef{Pipelines: map[string]definition.PipelineDef{"p": def}}
+	sys, err := core.NewSys(defs, js, core.NewMemOutputStore())
+	if err != nil {
+		res.Inconclusive = err.Error()
+		return res
+	}
+	good := 1 + int(seed%3)
+	var goodIDs []string
+	for i := 0; i < good; i++ {
+		id, cls := sys.Schedule(0, "p", map[string]interface{}{"n": float64(i), "s": "x"}, "u")
+		if cls != "ok" {
+			res.Inconclusive = "schedule: " + cls
+			sys.Close()
+			return res
+		}
+		goodIDs = append(goodIDs, id)
+		DrainAll(sys)
+	}
+	sys.Save(1) // the last good snapshot: all jobs so far have finished
+	bad := []interface{}{math.Inf(1), math.NaN(), math.Inf(-1), make(chan int)}[int(seed/3)%4]
+	badID, cls := sys.Schedule(0, "p", map[string]interface{}{"bad": bad}, "u")
+	if cls != "ok" {
+		res.Inconclusive = "schedule with an unencodable variable: " + cls
+		sys.Close()
+		return res
+	}
+	for i := 0; i < 1+int(seed%2); i++ {
+		sys.Save(1) // cannot be encoded: fails
+	}
+	DrainAll(sys)
+	sys.Save(1)
+	sys.Close()
+	res.sit("C10", fmt.Sprintf("saves fail because a job variable cannot be encoded (%T %v) after %d good jobs; restart", bad, bad, good))
+	res.Evaluations["C10"]++
+	specs := []gen.PipeSpec{{Name: "p", Def: def, Graph: gen.Graph{Names: []string{"t"}, Deps: map[string][]string{}}}}
+	sys2, err := RestartOn(filepath.Join(dir, "data.json"), specs, dir)
+	if err != nil {
+		find("C10:restart-fails-on-persisted-snapshot", "saves failed because a job variable (%T) cannot be encoded; afterwards a runner cannot be started on the data directory any more: %v", bad, err)
+		return res
+	}
+	defer sys2.Close()
+	defer DrainAll(sys2)
+	v := sys2.Snapshot(-1)
+	for i, id := range goodIDs {
+		j := v.ByID(id)
+		if j == nil {
+			find("C10:jobs-lost-or-duplicated-by-restart", "job %d, finished and saved before the saves began to fail, is not reported after the restart", i)
+		} else if !j.Completed {
+			find("C10:finished-job-reported-differently-after-restart", "job %d, finished and saved before the saves began to fail, is reported completed=%v after the restart", i, j.Completed)
+		}
+	}
+	if j := v.ByID(badID); j != nil {
+		find("C10:jobs-lost-or-duplicated-by-restart", "the job whose variables cannot be encoded is reported after the restart although no save can have carried it")
+	}
 	return res
 }
